@@ -102,7 +102,7 @@ def check_enum_history(case: dict):
 
     fam = _families()
     labels = []
-    for step, (family, rest) in enumerate(case["steps"]):
+    for step, (family, rest, *more) in enumerate(case["steps"]):
         cls, members = fam[family]
         params = C06.PATHS if family == "path" else C06.ADJS
         vf = _default_vf()
@@ -119,6 +119,14 @@ def check_enum_history(case: dict):
             klass = getattr(getattr(T, holder), attr)
             prev = vf.get(klass)
             vf[klass] = (lambda pr, po: (lambda x: x.is_valid() and po(x) and (pr is None or pr(x))))(prev, pred_obj)
+        if more and more[0]:
+            # an enumeration that the caller abandons after a few items (a look at the first ones, a break out of a loop, an interrupt)
+            it = iter(all_instances(cls, vf))
+            for _ in range(more[0]):
+                if next(it, None) is None:
+                    break
+            del it
+            labels.append("abandoned-enumeration")
         got = call("C15:all_instances:history", lambda: list(all_instances(cls, vf)))
         want = sorted(m.name for m, k in zip(members, keep) if k)
         gn = sorted(x.name for x in got)
@@ -132,7 +140,7 @@ def check_enum_history(case: dict):
 @st.composite
 def _enum_history(draw):
     names = [k for k in _INNER if k != "none"]
-    steps = draw(st.lists(st.tuples(st.sampled_from(["path", "path", "adj"]), st.lists(st.sampled_from(names), max_size=2, unique=True)).map(list), min_size=2, max_size=4))
+    steps = draw(st.lists(st.tuples(st.sampled_from(["path", "path", "adj"]), st.lists(st.sampled_from(names), max_size=2, unique=True), st.sampled_from([0, 0, 0, 1, 7, 60])).map(list), min_size=2, max_size=4))
     if draw(st.booleans()):
         steps.append([steps[0][0], []])  # ... and a plain enumeration at the end
     return {"steps": steps}
@@ -200,6 +208,16 @@ def check_identity(case: dict):
     require(back == a and back.name == a.name and hash(back) == hash(a), "C15:load-not-equal", f"loaded {back.name} from {a.name}")
     back2 = call("C15:load-json", MazeTokenizerModular.load, json.loads(json.dumps(ser, default=str)))
     require(back2 == a and back2.name == a.name, "C15:load-json-not-equal", f"loaded {back2.name} from {a.name}")
+    # the members of a JSON object have no order: the same saved form written with its keys sorted, and with every object reversed
+    def _rev(x):
+        if isinstance(x, dict):
+            return {k: _rev(x[k]) for k in reversed(list(x))}
+        return [_rev(y) for y in x] if isinstance(x, list) else x
+
+    for how, text in (("sorted", json.dumps(ser, default=str, sort_keys=True)), ("reversed", json.dumps(_rev(json.loads(json.dumps(ser, default=str)))))):
+        back4 = call("C15:load-json", MazeTokenizerModular.load, json.loads(text))
+        require(back4 == a and back4.name == a.name and hash(back4) == hash(a) and len({a, back4}) == 1, "C15:load-json-not-equal",
+                f"saved form with keys {how}: loaded {back4.name} (hash equal: {hash(back4) == hash(a)}) from {a.name}")
     if case.get("zanj"):
         from zanj import ZANJ
 
@@ -337,6 +355,28 @@ def _full_space(seed_val: int):
     def fail(sig, msg):
         fails.append(Failure("full-space", sig, msg, {"full_space": True}))
 
+    # the first call is interrupted part-way (an exception arrives while the library enumerates, as Ctrl-C would); the next call is the
+    # one that is checked - what an interrupted call left behind must not be handed out as the enumeration
+    import signal
+
+    class _Interrupt(Exception):
+        pass
+
+    def _raise(*_a):
+        raise _Interrupt()
+
+    old = signal.signal(signal.SIGALRM, _raise)
+    try:
+        signal.setitimer(signal.ITIMER_REAL, 6.0 + (seed_val % 7) * 3.0)
+        try:
+            get_all_tokenizers()
+            stats.labels["first-call-finished-before-the-interrupt"] += 1
+        except _Interrupt:
+            stats.labels["first-call-interrupted"] += 1
+        finally:
+            signal.setitimer(signal.ITIMER_REAL, 0)
+    finally:
+        signal.signal(signal.SIGALRM, old)
     _ALL = call("C15:get_all_tokenizers", get_all_tokenizers)
     n = len(_ALL)
     if n != N_TOTAL:
